@@ -25,10 +25,11 @@ def classify(r):
     prev = [e for e in r["raw"][:r["index"]] if e.get("ev") in ("Rollback", "CommitEnd", "RemoveStore", "OpError")]
     last = prev[-1] if prev else {}
     after = "%s%s" % (last.get("ev", "start"), "" if last.get("ev") != "CommitEnd" else (":ok" if last.get("ok") else ":failed"))
-    if last.get("ev") == "CommitEnd" and not last.get("ok"):
-        arm = [e for e in r["raw"][:r["index"]] if e.get("ev") == "Arm" and e.get("t") == last.get("t")]
-        if arm:   # the commit failed on an injected backend fault
-            after += "(injected%s)" % arm[-1].get("note", "").rstrip()
+    arm = [e for e in r["raw"][:r["index"]] if e.get("ev") == "Arm"]
+    failed = {e.get("t") for e in r["raw"][:r["index"]] if e.get("ev") == "CommitEnd" and not e.get("ok")}
+    arm = [a for a in arm if a.get("t") in failed]
+    if arm:   # a commit earlier in this history failed on an injected backend fault: what it left behind stays
+        after += "(injected%s)" % arm[-1].get("note", "").rstrip()
     what = "event %d not explained by the catalogue model: %s" % (r["index"], json.dumps(raw)[:300])
     if ev == "Observe":
         if raw.get("exists") and not raw.get("items") and raw.get("count") == 0:
